@@ -210,3 +210,20 @@ M("C10", "if-positive-only", CG, "    if condition:\n        code += _code_gen(i
 M("C10", "parse-for-swaps", PST, "    return ForAstNode(variable.value, start, end, block, current)", "    return ForAstNode(variable.value, end, start, block, current)", "C10.R3")
 M("C10", "ifast-swaps-blocks", ASTN, "        self.block = block\n        self.else_block = else_bock", "        self.block = else_bock or block\n        self.else_block = block if else_bock else None", "C10.R3")
 M("C10", "undefined-true", CG, "    except (KeyError, SymbolNotDefined):\n        condition = False", "    except (KeyError, SymbolNotDefined):\n        condition = True", "C10.R1")
+
+# ------------------------------------------------------------------ C14
+M("C14", "revert-nodeerror-status", PROG, "                except NodeError as e:\n                    logger.error(str(e))\n                    return -1\n", "                except NodeError as e:\n                    logger.error(str(e))\n", "C14.R")
+M("C14", "revert-error-string-check", PROG, "                if error is not None:\n                    logger.error(error)\n                    return -1\n", "", "C14.R")
+M("C14", "error-string-discarded", PROG, "                    error = self.assemble_string_with_emitter(input_program, asm_file, emitter)\n", "                    error = None\n                    self.assemble_string_with_emitter(input_program, asm_file, emitter)\n", "C14.R3")
+M("C14", "cli-exit-zero", "a816/cli.py", "    sys.exit(exit_code)", "    sys.exit(0 if exit_code is None else 0)", "C14.R2")
+M("C14", "emit-swallows", PROG, "            node_bytes = node.emit(self.resolver.reloc_address)\n", "            try:\n                node_bytes = node.emit(self.resolver.reloc_address)\n            except Exception:\n                continue\n", "C14.R1")
+M("C14", "parse-drops-ast-error", "a816/parse/mzparser.py", "        return ast.error, code_gen(ast.nodes, self.resolver)", "        return None, code_gen(ast.nodes, self.resolver)", "C14.R3")
+M("C14", "runtime-error-logged-only", PROG, "        except RuntimeError as e:\n            self.logger.error(e)\n            return -1\n", "        except RuntimeError as e:\n            self.logger.error(e)\n", "C14.R")
+M("C14", "as-patch-returns-zero", PROG, "            ips_emitter.end()\n            return exit_code", "            ips_emitter.end()\n            return 0", "C14.R2")
+M("C14", "get-value-swallows-undefined", NODES, "        except SymbolNotDefined as e:\n            raise NodeError(f\"{e} ({self}) is not defined in the current scope.\", self.file_info) from e", "        except SymbolNotDefined:\n            return 0", "C14.R1")
+M("C14", "generate-if-broad", CG, "    except (KeyError, SymbolNotDefined):\n        condition = False", "    except Exception:\n        condition = False", "C14.R1")
+M("C14", "skip-emit-on-dump", PROG, "        if self.dump_symbols:\n            self.resolver.dump_symbol_map()\n\n        self.emit(nodes, emitter)\n\n        return None", "        if self.dump_symbols:\n            self.resolver.dump_symbol_map()\n            return None\n\n        self.emit(nodes, emitter)\n\n        return None", "C14.R4")
+M("C14", "parse-error-cleared-early", "a816/parse/mzparser.py", "        error: str | None\n\n        try:\n            tokens = scanner.scan(filename, program)", "        error: str | None\n\n        try:\n            error = None\n            tokens = scanner.scan(filename, program)", "C14.R1",
+  edits=[("a816/parse/mzparser.py", "        error: str | None\n\n        try:\n            tokens = scanner.scan(filename, program)", "        error: str | None\n\n        try:\n            error = None\n            tokens = scanner.scan(filename, program)"),
+         ("a816/parse/mzparser.py", "        except ParserSyntaxError as e:\n            error = e.token.trace()", "        except ParserSyntaxError as e:\n            e.token.trace()")])
+M("C14", "log-level-neutral", PROG, "                    logger.error(str(e))\n                    return -1", "                    logger.error(\"assembly failed: %s\", e)\n                    return 1", neutral=True)
